@@ -1,3 +1,4 @@
+import Props.SchedTie
 import TaskModel.Sched.DeferLemmas
 /-!
 # C14 — Deferred commands always run, exactly once, in reverse order
